@@ -195,6 +195,9 @@ func Run(cfg hx.Config) error {
 		r.Op("reset", "ok", false)
 		runManager(r, rnd, cfg)
 	}
+	if !r.Stop() {
+		runManagerSpools(r, ts, rnd.Fork(), cfg)
+	}
 	return nil
 }
 
